@@ -301,7 +301,7 @@ fn run(ctx: &Ctx) {
         2 => Just(b'\t'),
         2 => Just(b'\r'),
         3 => Just(b'\n'),
-        3 => (b'a'..=b'z'),
+        3 => b'a'..=b'z',
         2 => any::<u8>(),
     ];
     let strat = (
